@@ -1,7 +1,7 @@
 """C05 - local key index and residency DB behave as persistent maps (structural clauses)."""
 import re
 from .facts import op_local, Slice, uses_of_local, place_fields, op_const
-from .lib import (bool_switches, enum_switches, assigns_variant, copies_of, field_writes,
+from .lib import (bool_switches, enum_switches, assigns_variant, copies_of, field_writes, forward_calls,
                   const_bool_assign_blocks, path_exists)
 
 CRATES = ["cascette_client_storage"]
@@ -158,6 +158,10 @@ def r2_flush_retry(ctx, cfg):
                                       "flush error leaves add_entry", "a failed flush still reaches the retry / Ok in add_entry", f.loc())
 
 
+ITER_ADAPT = re.compile(r"\bIterator>?::(enumerate|rev|skip|take|filter|map|peekable|copied|cloned|by_ref|zip|chain|flat_map|flatten|filter_map)$|\bIntoIterator>?::into_iter$|\bDeref>?::deref$")
+REVERSE = re.compile(r"\bIterator>?::rev$|\bDoubleEndedIterator>?::(rfind|rposition|rfold|next_back|nth_back|try_rfold)$|\bIterator>?::(last|rposition)$")
+
+
 def r3_precedence(ctx, cfg):
     ctx.rule("C05.R3", "update section first, newest first, tombstones hide; siblings agree on the tombstone")
     b = find_method(ctx, "C05.R3", *cfg["search_both"])
@@ -201,17 +205,27 @@ def r3_precedence(ctx, cfg):
                           "hit passes a Delete test whose equal edge returns None",
                           "search_both_sections serves an update-section hit without (or regardless of) the Delete-tombstone test",
                           e.loc(), sample=detail)
-    # newest first in UpdateSection::search
+    # newest first in UpdateSection::search: every iterator created in search (or its closures) must be
+    # consumed in reverse
     sb = find_method(ctx, "C05.R3", *cfg["section_search"])
     if sb:
-        ctx.saw(sb)
-        nexts = [c for c in sb.calls_matching(r"\bIterator>?::next$")]
-        ctx.floor("C05.R3", len(nexts), 2, "iterator steps in UpdateSection::search")
-        for n, c in enumerate(nexts):
-            ctx.check(re.search(r"\bRev<", c.full) is not None, "C05.R3", [sb.id, "rev#%d" % n],
-                      "iterates in reverse (newest first)",
-                      "UpdateSection::search iterates %s forward: an older entry for the key would win over a newer one" % c.full,
-                      c.loc(), sample={"iterator": c.full})
+        n_it = 0
+        for fb in ctx.prog.family(sb):
+            ctx.saw(fb)
+            its = fb.calls_matching(r"slice::<impl \[T\]>::iter$|\bIntoIterator>?::into_iter$")
+            for c in its:
+                # an into_iter of something that is already a reversed iterator is not a new iteration
+                if re.search(r"into_iter$", c.name) and any(REVERSE.search(x.name) or REVERSE.search(x.orig_name) for x in Slice(fb, [op_local(c.args[0])], transparent=ITER_ADAPT).calls):
+                    continue
+                n_it += 1
+                fw = forward_calls(fb, c.dest[0], through=ITER_ADAPT)
+                rev = [x for x in fw if REVERSE.search(x.name) or REVERSE.search(x.orig_name)]
+                ctx.check(bool(rev), "C05.R3", [fb.id, "newest-first"],
+                          "iteration is consumed in reverse (newest first)",
+                          "UpdateSection::search walks %s oldest-first: an older entry for the key wins over a newer one "
+                          "(stale location returned / removed key still found)" % ("the pages/entries created at " + c.loc()),
+                          c.loc(), sample={"iterator_created": c.loc(), "reverse_consumer": [x.name for x in rev][:2]})
+        ctx.floor("C05.R3", n_it, 2, "iterations (pages, entries) in UpdateSection::search")
     # siblings agree on the tombstone discriminant
     sib = []
     for (ty, item) in cfg.get("tombstone_siblings", [("IndexManager", "flush_updates_for_bucket"), ("IndexManager", "iter_entries")]):
@@ -366,8 +380,59 @@ def enum_switches_through(body, local):
     return out
 
 
+def r5_hash_index(ctx, cfg):
+    rule = "C05.R5"
+    ctx.rule(rule, "the residency fast-path filter (hash_index) stays a superset of the stored keys: no per-key removal; "
+                   "every path that stores an entry/page reaches an index update")
+    ty = cfg["resdb"]
+    fld = cfg.get("filter_field", "hash_index")
+    methods = ctx.prog.find(self_ty=r"\b%s\b" % ty, trait=False)
+    if not ctx.anchor(rule, methods, "methods of %s" % ty):
+        return
+    from .lib import receiver_fields_all
+    n_sites = 0
+    maint = re.compile(cfg.get("filter_maint_pat", r"ResidencyDb::(rebuild_hash_index|update_hash_index_for_key)$"))
+    for m in methods:
+        adds = False
+        for c in m.calls:
+            if not c.args:
+                continue
+            fields = receiver_fields_all(m, c)
+            on_filter = any(fld in f for f in fields)
+            if on_filter:
+                n_sites += 1
+                ctx.call_sites += 1
+                meth = c.name.split("::")[-1]
+                if meth in ("remove", "retain", "pop_first", "pop_last", "remove_entry", "split_off", "extract_if", "first_entry", "last_entry"):
+                    ctx.bad(rule, [m.id, fld, meth],
+                            "%s removes individual slots from `%s`: slots are shared by every key with the same 8-byte prefix hash and "
+                            "is_resident() answers `false` when the slot is missing, so a surviving key is reported non-resident" % (m.id, fld), c.loc())
+                elif meth == "clear":
+                    refill = any(any(fld in f for f in receiver_fields_all(m, x)) and x.name.split("::")[-1] in ("entry", "insert")
+                                 for x in m.calls if x.args)
+                    ctx.check(refill, rule, [m.id, fld, "clear"], "clear is part of a rebuild",
+                              "%s clears `%s` without rebuilding it from the buckets" % (m.id, fld), c.loc())
+                else:
+                    ctx.ok(rule, [m.id, fld, meth, c.bb], "non-removing access", c.loc(), nontrivial=False)
+        # stores of entries/pages into the buckets must be followed by index maintenance
+        stores = [c for c in m.calls if re.search(cfg.get("store_pat", r"ResidencyPage::push$"), c.name) or
+                  (re.search(r"\bVec::<T, A>::push$", c.name) and any(cfg["resdb_field"] in f for f in receiver_fields_all(m, c)))]
+        if stores and not m.root:
+            ctx.saw(m)
+            maint_blocks = {c.bb for c in m.calls if maint.search(c.name)}
+            rets = set(m.return_blocks())
+            for n, c in enumerate(stores):
+                leak = m.reachable(m.succ[c.bb], avoid=maint_blocks) & rets
+                ctx.check(not leak, rule, [m.id, "store#%d" % n, "index-maintained"],
+                          "store is followed by an index update on every path",
+                          "%s stores an entry/page but can return without updating `%s`: is_resident() will answer false for a resident key" % (m.id, fld),
+                          c.loc(), sample={"store": c.loc(), "maintenance_calls": sorted(maint_blocks)})
+    ctx.floor(rule, n_sites, cfg.get("filter_floor", 4), "accesses to %s.%s" % (ty, fld))
+
+
 def run(ctx, cfg=CFG):
     r1_append_consumed(ctx, cfg)
     r2_flush_retry(ctx, cfg)
     r3_precedence(ctx, cfg)
     r4_dirty(ctx, cfg)
+    r5_hash_index(ctx, cfg)
